@@ -109,7 +109,18 @@ CONSTRUCTS = [
     ("binom",    ["any", "any"], lambda a, b: row(mo("("), el("mfrac", a, b, linethickness="0"), mo(")"))),
     ("log",      ["any", "any"], lambda a, b: row(el("msub", mi("log"), a), b)),
 ]
-CONSTRUCT = {c[0]: c for c in CONSTRUCTS}
+# constructs used only by the planted-literal checks (C04, C06): operand positions that the grammar above reaches only with a large
+# operator or a single operator - a limit-style element around an ordinary base, and chains of three operands with division-like operators
+EXTRA_CONSTRUCTS = [
+    ("underover", ["any", "any", "any"], lambda a, b, c: el("munderover", a, b, c)),
+    ("div3",      ["any", "any", "any"], lambda a, b, c: row(a, mo("/"), b, mo("/"), c)),
+    ("ratio3",    ["any", "any", "any"], lambda a, b, c: row(a, mo(":"), b, mo(":"), c)),
+    ("divide3",   ["any", "any", "any"], lambda a, b, c: row(a, mo("\u00f7"), b, mo("\u00f7"), c)),
+    ("times3",    ["any", "any", "any"], lambda a, b, c: row(a, mo("\u22c5"), b, mo("\u22c5"), c)),
+    ("list3",     ["any", "any", "any"], lambda a, b, c: row(a, mo(","), b, mo(","), c)),
+]
+CONSTRUCT = {c[0]: c for c in CONSTRUCTS + EXTRA_CONSTRUCTS}
+ALL_NAMES = [c[0] for c in CONSTRUCTS + EXTRA_CONSTRUCTS]
 CORE6 = ["frac", "sqrt", "sup", "sum", "times", "paren"]
 
 
